@@ -372,9 +372,6 @@ def run(prog: Program, ctx: Ctx) -> None:  # noqa: PLR0912,PLR0915
     TABLED = {
         ("_griffe.loader.GriffeLoader.resolve_module_aliases", "v2.final_target"):
             "in the `else:` of the try whose body is member.resolve_target(): the whole chain was just resolved",
-        ("_griffe.loader.GriffeLoader.resolve_module_aliases", "p1.package"):
-            "`obj` is the traversal root: callers pass collection modules or members dominated by `not member.is_alias` (checked below)",
-        ("_griffe.loader.GriffeLoader.resolve_module_aliases", "p1.members"): "same",
         ("_griffe.loader.GriffeLoader._expand_wildcard", "v0.members"):
             "only called from expand_wildcards inside the handler for both alias errors (checked below)",
         ("_griffe.merger._merge_function_stubs", "v0.annotation"): "loop variable over Parameters: a Parameter, never an alias",
@@ -386,7 +383,10 @@ def run(prog: Program, ctx: Ctx) -> None:  # noqa: PLR0912,PLR0915
     # (the dataclasses extension is always loaded and runs inside load(): an alias error escaping it aborts loading)
     scope = [f for f in prog.functions.values() if f.module.name in ("_griffe.loader", "_griffe.merger", "_griffe.extensions.dataclasses")
              or f.qualname.startswith("_griffe.mixins.SetMembersMixin.set_member")]
-    sites = ad.scan(scope, TABLED)
+    # `obj` of the public resolve_module_aliases is the traversal root: its callers pass collection modules or members dominated by
+    # `not member.is_alias` (checked below: "root-not-alias")
+    ROOTS = {("_griffe.loader.GriffeLoader.resolve_module_aliases", "obj"): "traversal root: every call site in the loader passes a non-alias (checked by root-not-alias)"}
+    sites = ad.scan(scope, TABLED, assume=ROOTS)
     n_sites = len(sites)
     for st in sites:
         ctx.ob("R4", key(st.fn, f"deref:{canon_text(st.fn, st.node)}"), st.status != "OPEN",
@@ -455,35 +455,19 @@ def run(prog: Program, ctx: Ctx) -> None:  # noqa: PLR0912,PLR0915
     ctx.expect_min("R4", n_setter_sites, 1)
 
     # ------------------------------------------------------------------ R5 fixpoint loop frame
-    ctx.rule("R5", "resolve_aliases iterates while something is unresolved, the unresolved set changed, and the iteration bound holds; "
-                   "the previous set is taken from the current one at the top of each iteration; failed external loads are memoised")
+    ctx.rule("R5", "the fixpoint loop of resolve_aliases, on behaviour: with imports from a package outside the collection and load() replaced by a "
+                   "recording stand-in, the loop stops as soon as a pass leaves the unresolved set unchanged, honours max_iterations, starts every pass from "
+                   "scratch (a name resolved in a later pass is no longer reported), asks for a package that failed to load only once, and loads "
+                   "other packages only as `external` says")
+    from sa.tables.aliasgraphs import external_rows
+
     ra = prog.function("_griffe.loader.GriffeLoader.resolve_aliases")
-    whiles = [n for n in walk_no_nested(ra.node) if isinstance(n, ast.While)]
-    if len(whiles) != 1:
-        raise AnalysisError("C06-R5: expected exactly one while loop in resolve_aliases")
-    w = whiles[0]
-    conj = implied(w.test, True)
-    texts = {unparse(a): t for a, t in conj}
-    cur = prev = None
-    for a, t in conj:
-        if isinstance(a, ast.Compare) and len(a.ops) == 1 and isinstance(a.ops[0], ast.NotEq) and t:
-            cur, prev = unparse(a.left), unparse(a.comparators[0])
-    ctx.ob("R5", key(ra, "loop-until-stable"), cur is not None, "loop condition requires the unresolved set to differ from the previous iteration's", where(ra, w))
-    if cur is not None:
-        ctx.ob("R5", key(ra, "loop-while-unresolved"), texts.get(cur) is True, "loop stops when nothing is unresolved", where(ra, w))
-        bound = any(isinstance(a, ast.Compare) and isinstance(a.ops[0], ast.Lt) and t for a, t in conj)
-        ctx.ob("R5", key(ra, "iteration-bound"), bound, "loop honours max_iterations", where(ra, w))
-        first = w.body[0] if w.body else None
-        ok = isinstance(first, ast.Assign) and unparse(first.targets[0]) == prev and cur in {n.id for n in ast.walk(first.value) if isinstance(n, ast.Name)}
-        ctx.ob("R5", key(ra, "prev-from-current"), ok, f"`{prev}` is taken from `{cur}` before `{cur}` is recomputed", where(ra, first or w))
-        reset = any(isinstance(s, ast.Assign) and unparse(s.targets[0]) == cur and isinstance(s.value, ast.Call) and not s.value.args for s in w.body)
-        ctx.ob("R5", key(ra, "current-recomputed"), reset, f"`{cur}` is rebuilt from scratch in each iteration", where(ra, w))
-        inc = any(isinstance(s, ast.AugAssign) and isinstance(s.op, ast.Add) for s in w.body)
-        ctx.ob("R5", key(ra, "iteration-incremented"), inc, "iteration counter advances", where(ra, w))
     rma = prog.function("_griffe.loader.GriffeLoader.resolve_module_aliases")
-    memo_test = any(isinstance(n, ast.Compare) and isinstance(n.ops[0], ast.NotIn) and unparse(n.comparators[0]) == "load_failures" for n in ast.walk(rma.node))
-    memo_add = any(isinstance(n, ast.Call) and unparse(n.func) == "load_failures.add" for n in ast.walk(rma.node))
-    ctx.ob("R5", key(rma, "load-failures-memoised"), memo_test and memo_add, "a package that failed to load is not retried in later iterations", where(rma))
+    n_ext = 0
+    for row, good, text in external_rows(prog):
+        n_ext += 1
+        ctx.ob("R5", row, good, text, where(ra))
+    ctx.expect_min("R5", n_ext, 8)
 
     # ------------------------------------------------------------------ R7 every small alias graph, every resolution order
     ctx.rule("R7", "on every alias graph over three names (four in the thorough tier) - real objects, imports of each other, of themselves or of "
